@@ -443,10 +443,10 @@ func enumerateSchemas(thorough bool) []SchemaPlan {
 		add(core, 4, 2, ConfigPlan{Dom: 2, Few: true, MaxRep: 2, Select: 1, Faults: 2}, mid)
 		return out
 	}
-	small := Limits{MaxPermGroups: 4, SplitFiles: 3, MaxSplitItems: 6, MixedSpellings: allSpell, PairsOnFaults: true, ExpandOnlyPairs: true}
-	two := Limits{MaxPermGroups: 4, SplitFiles: 3, MaxSplitItems: 5, MixedSpellings: allSpell, ExpandOnlyPairs: true}
+	small := Limits{MaxPermGroups: 4, SplitFiles: 3, MaxSplitItems: 6, MixedSpellings: allSpell, PairsOnFaults: true, ExpandOnlyPairs: true, BothNestings: true}
+	two := Limits{MaxPermGroups: 4, SplitFiles: 3, MaxSplitItems: 5, MixedSpellings: allSpell, ExpandOnlyPairs: true, BothNestings: true}
 	big := Limits{MaxPermGroups: 4, SplitFiles: 3, MaxSplitItems: 4, MixedSpellings: []JSpelling{JGroup, JDup},
-		PairPermFamily: true, PairSplitCuts: true, PairF: reducedPairF}
+		PairPermFamily: true, PairSplitCuts: true, PairF: reducedPairF, BothNestings: true}
 	add(full, 0, 0, ConfigPlan{}, small)
 	add(full, 1, 0, ConfigPlan{Dom: 0, Null: true, MaxRep: 3}, small)
 	add(full, 2, 1, ConfigPlan{Dom: 2, Null: true, Few: true, MaxRep: 3, Faults: 1}, two)
